@@ -87,6 +87,10 @@ SeqRows   == {[kind |-> "classify", a |-> p[1].id, sep |-> p[2], b |-> p[3].id, 
                expect |-> Exp(p[1]) \o SepTok(p[2]) \o Exp(p[3]), full |-> f] : p \in Pairs, f \in {FALSE}}
 CharsetRows == {[kind |-> "classify", a |-> "at-charset-sp", sep |-> "none", b |-> t.id, texts |-> <<"@charset ", t.text>>,
                  expect |-> <<[type |-> "CHARSET_SYM", value |-> "@charset "]>> \o Exp(t), full |-> f] : t \in Toks, f \in BOOLEAN}
+               \* the same behind a byte-order mark as the tokenizer sees it (the BOM token is not counted among the real tokens)
+               \cup {[kind |-> "classify", a |-> "bom-at-charset-sp", sep |-> "none", b |-> t.id, texts |-> <<b \o "@charset ", t.text>>,
+                      expect |-> <<[type |-> "CHARSET_SYM", value |-> "@charset "]>> \o Exp(t), full |-> f] :
+                        b \in {"ï»¿", "þÿ"}, t \in {x \in Toks : x.id \in {"string-dq", "ident", "semicolon", "string-sq", "number"}}, f \in BOOLEAN}
 \* tokens left open at the end of the input: in full-sheet mode they are completed (value given here)
 Truncs == {T("open-string-dq", "\"abc", "STRING", "\"abc\""), T("open-string-sq", "'abc", "STRING", "'abc'"),
            T("open-string-esc", "\"a~62 c", "STRING", "\"abc\""),
